@@ -335,6 +335,8 @@ def oracle_case(case):
     r = gen_ref(case, f)
     if r[0] == 'norefer':
         return None          # the catalogue's answer is outside the stated family for this message
+    if r[0] == 'err':
+        bad('the reference template renders (harness self-check)', 'a stream', r)
     checks = case.get('checks', ['identity', 'lookups', 'placeholders', 'excluded'])
     if kind == 'id':
         if 'identity' in checks and w != r:
@@ -372,6 +374,358 @@ def _clip(x):
 
 
 # --------------------------------------------------------------------------
+# correspondence with the Lean model (gdrv): template streams on the wire
+
+class Wire(object):
+    """genshi template events -> wire values; expressions are numbered in order of appearance"""
+
+    def __init__(self):
+        self.ids = {}
+
+    def eid(self, obj):
+        k = id(obj)
+        if k not in self.ids:
+            self.ids[k] = len(self.ids)
+        return self.ids[k]
+
+    @staticmethod
+    def val(v):
+        if isinstance(v, tuple):
+            return [Atom('many')] + [proto.N if x is None else x for x in v]
+        return [Atom('one'), proto.N if v is None else v]
+
+    def code(self, expr):
+        from genshi.filters.i18n import extract_from_code, GETTEXT_FUNCTIONS
+        return [[f, self.val(v)] for f, v in extract_from_code(expr, GETTEXT_FUNCTIONS)]
+
+    def dir(self, d):
+        from genshi.filters import i18n
+        from genshi.template.directives import StripDirective
+        if isinstance(d, i18n.DomainDirective):
+            return [Atom('domain'), d.domain]
+        if isinstance(d, i18n.CommentDirective):
+            return [Atom('comment'), d.comment]
+        if isinstance(d, i18n.ContextDirective):
+            return [Atom('ctxt'), d.context]
+        if isinstance(d, i18n.MsgDirective):
+            return [Atom('msg')] + list(d.params)
+        if isinstance(d, i18n.ChooseDirective):
+            return [Atom('choose')] + list(d.params)
+        if isinstance(d, i18n.SingularDirective):
+            return Atom('Singular')
+        if isinstance(d, i18n.PluralDirective):
+            return Atom('Plural')
+        if isinstance(d, StripDirective):
+            return Atom('Strip')
+        return [Atom('other'), d.tagname]
+
+    def aval(self, v):
+        from genshi.core import TEXT
+        from genshi.template.base import EXPR
+        if isinstance(v, str):
+            return [Atom('av'), str(v)]
+        parts = []
+        for ev in v:
+            if ev[0] is TEXT:
+                parts.append([Atom('t'), str(ev[1])])
+            elif ev[0] is EXPR:
+                parts.append([Atom('x'), self.code(ev[1])])
+            else:
+                raise ValueError('attribute part %r' % (ev[0],))
+        return [Atom('ap'), parts]
+
+    def ev(self, e):
+        from genshi.core import START, END, TEXT
+        from genshi.template.base import EXPR, SUB, EXEC
+        from harness.evwire import qn
+        kind, data = e[0], e[1]
+        if kind is START:
+            return [Atom('S'), qn(data[0]), [[qn(k), self.aval(v)] for k, v in data[1]]]
+        if kind is END:
+            return [Atom('E'), qn(data)]
+        if kind is TEXT:
+            return [Atom('T'), str(data)]
+        if kind is EXPR:
+            return [Atom('X'), Atom(str(self.eid(data))), self.code(data)]
+        if kind is EXEC:
+            return [Atom('XC'), self.code(data)]
+        if kind is SUB:
+            if data[1] is None:
+                raise TypeError('SUB without sub-stream')
+            return [Atom('SUB'), [self.dir(d) for d in data[0]], [self.ev(x) for x in data[1]]]
+        return [Atom('O'), '%s:%r' % (kind, data)]
+
+    def stream(self, events):
+        return [self.ev(e) for e in events]
+
+
+CATS = {
+    'id': lambda d, c, s: s,
+    'wrap': lambda d, c, s: '<%s|%s|%s>' % (d or '', c or '', s),
+    'pad': lambda d, c, s: ' %s ' % s,
+    'const': lambda d, c, s: 'X',
+    'dup': lambda d, c, s: s + s,
+}
+
+
+class KeyedCatalogue(object):
+    """catalogue whose answer depends on (domain, context, msgid); records the look-ups"""
+
+    def __init__(self, g):
+        self.g = g
+        self.log = []
+
+    def _l(self, d, c, s):
+        self.log.append([proto.N if d is None else d, proto.N if c is None else c, s])
+        return self.g(d, c, s)
+
+    def gettext(self, s):
+        return self._l(None, None, s)
+
+    def dgettext(self, d, s):
+        return self._l(d, None, s)
+
+    def pgettext(self, c, s):
+        return self._l(None, c, s)
+
+    def dpgettext(self, d, c, s):
+        return self._l(d, c, s)
+
+    def ngettext(self, s, p, n):
+        return s if n == 1 else p
+
+    def dngettext(self, d, s, p, n):
+        return s if n == 1 else p
+
+    def npgettext(self, c, s, p, n):
+        return s if n == 1 else p
+
+    def dnpgettext(self, d, c, s, p, n):
+        return s if n == 1 else p
+
+
+def errname(e):
+    if isinstance(e, RuntimeError) and 'StopIteration' in str(e):
+        return 'RuntimeError'
+    return type(e).__name__
+
+
+def wire_cfg(cfg):
+    from genshi.core import QName
+    return [[str(QName(t)) for t in cfg['ignore_tags']], list(cfg['include_attrs']), B(cfg['extract_text'])]
+
+
+def fresh_template(case):
+    from genshi.template import MarkupTemplate
+    from genshi.filters.i18n import Translator
+    tmpl = MarkupTemplate(G.source(case['tmpl']))
+    tr = Translator(None, **cfg_args(case['cfg']))
+    tmpl.add_directives(Translator.NAMESPACE, tr)
+    return tmpl, tr
+
+
+def corr_lines(case, rng):
+    """[(stream name, request line, real answer)] for one template case; every real call works on
+    a fresh template because both passes edit the directive lists in place (C10)"""
+    from genshi.template.base import Context, SUB
+    from genshi.filters import i18n
+    out = []
+    # --- Translator.__call__
+    catkind = rng.choice(['id', 'wrap', 'wrap', 'pad', 'const', 'dup'])
+    frames = rng.choice([[], [], [], [['d', 'foo']], [['c', 'menu']], [['c', 'menu'], ['d', 'bar']], [['d', 'foo'], ['d', 'bar']]])
+    tt, ta = rng.random() < 0.85, rng.random() < 0.85
+    tmpl, tr = fresh_template(case)
+    w = Wire()
+    stream = tmpl.stream
+    wired = w.stream(stream)
+    cat = KeyedCatalogue(CATS[catkind])
+    tr.translate = cat
+    ctxt = Context()
+    for k, v in reversed(frames):
+        ctxt.push({'_i18n.domain' if k == 'd' else '_i18n.context': v})
+    line = proto.line(Atom('C19'), Atom('translate'), wire_cfg(case['cfg']), Atom(catkind),
+                      [[Atom(k), v] for k, v in frames], B(tt), B(ta), wired)
+    try:
+        res = list(tr(stream, ctxt, translate_text=tt, translate_attrs=ta))
+        real = [w.stream(res), cat.log]
+    except Exception as e:  # noqa
+        real = [Atom('err'), Atom(errname(e))]
+    out.append(('translate', line, real))
+    # --- Translator.extract
+    tmpl, tr = fresh_template(case)
+    w = Wire()
+    wired = w.stream(tmpl.stream)
+    line = proto.line(Atom('C19'), Atom('extract'), wire_cfg(case['cfg']), wired)
+    try:
+        msgs = []
+        for lineno, func, msg, comments in tr.extract(tmpl.stream):
+            msgs.append([proto.N if func is None else func, Wire.val(msg), list(comments)])
+        real = [Atom('ok'), msgs]
+    except Exception as e:  # noqa
+        real = [Atom('err'), Atom(errname(e))]
+    out.append(('extract', line, real))
+    # --- MsgDirective.__call__ on every message of the template
+    tmpl, tr = fresh_template(case)
+    w = Wire()
+
+    def msgs_of(events):
+        for e in events:
+            if e[0] is SUB:
+                for d in e[1][0]:
+                    if isinstance(d, i18n.MsgDirective):
+                        yield d, e[1][1]
+                for x in msgs_of(e[1][1]):
+                    yield x
+    for d, sub in msgs_of(tmpl.stream):
+        catkind = rng.choice(['id', 'id', 'pad', 'const', 'dup'])
+        g = CATS[catkind]
+        looked = []
+
+        def gt(s, g=g, looked=looked):
+            looked.append(s)
+            return g(None, None, s)
+        ctxt = Context()
+        ctxt['_i18n.gettext'] = gt
+        line = proto.line(Atom('C19'), Atom('msggen'), list(d.params), Atom(catkind), w.stream(sub))
+        try:
+            res = list(d(iter(sub), [], ctxt))
+            real_a = [Atom('ok'), w.stream(res)]
+        except Exception as e:  # noqa
+            real_a = [Atom('err'), Atom(errname(e))]
+        if looked:
+            real_b = [Atom('ok'), looked[0]]
+        elif real_a[0] == 'err':
+            real_b = real_a
+        else:
+            real_b = [Atom('ok'), proto.N]
+        out.append(('msggen', line, [real_a, real_b]))
+    return out
+
+
+def rand_events(rng, w_unused=None):
+    """random event lists for MessageBuffer (not necessarily balanced), as genshi events"""
+    from genshi.core import START, END, TEXT, COMMENT, QName, Attrs
+    from genshi.template.base import EXPR, SUB
+    from genshi.template.eval import Expression
+    from genshi.template.directives import StripDirective, IfDirective
+    pos = (None, 1, 0)
+    evs = []
+    depth = 0
+    tags = []
+    texts = ['a', 'Foo ', ' bar', '[', ']', 'x[1:y]', '\\', 'a\\', '%(p1)s', '%(zz)s', ' ', '', '12', 'é', '[2:', ']]', 'a b\n']
+    exprs = [Expression('s%d' % i) for i in range(3)]
+    n = rng.randrange(0, 9)
+    for _ in range(n):
+        q = rng.random()
+        if q < 0.35:
+            evs.append((TEXT, rng.choice(texts), pos))
+        elif q < 0.5:
+            evs.append((EXPR, rng.choice(exprs), pos))
+        elif q < 0.72:
+            t = QName(rng.choice(['b', 'i', 'a']))
+            tags.append(t)
+            evs.append((START, (t, Attrs([(QName('id'), 'k')] if rng.random() < 0.3 else [])), pos))
+        elif q < 0.92:
+            if tags and rng.random() < 0.9:
+                evs.append((END, tags.pop(), pos))
+            else:
+                evs.append((END, QName('b'), pos))
+        elif q < 0.96:
+            evs.append((COMMENT, 'c', pos))
+        else:
+            inner = rand_events(rng)
+            evs.append((SUB, ([StripDirective('', None)], inner), pos))
+    if rng.random() < 0.7:
+        while tags:
+            evs.append((END, tags.pop(), pos))
+    return evs
+
+
+def rand_translation(rng, fmt):
+    """a translation string: the message itself, a mutation of it, or bracket soup"""
+    q = rng.random()
+    if q < 0.3 and fmt is not None:
+        return fmt
+    if q < 0.6 and fmt is not None and fmt:
+        s = list(fmt)
+        for _ in range(rng.randrange(1, 3)):
+            i = rng.randrange(len(s) + 1)
+            k = rng.random()
+            if k < 0.4 and s:
+                del s[min(i, len(s) - 1)]
+            elif k < 0.7:
+                s.insert(i, rng.choice(['[1:', ']', 'x', '[2:', '\\', '%(p1)s', ' ']))
+            elif len(s) > 1:
+                j = rng.randrange(len(s))
+                s[min(i, len(s) - 1)], s[j] = s[j], s[min(i, len(s) - 1)]
+        return ''.join(s)
+    toks = ['[1:', '[2:', '[3:', '[12:', '[0:', ']', ']', 'a', 'b ', ' ', '\\]', '\\[', '\\', '%(p1)s', '%(p2)s', '%(q)s', '%(', ')s',
+            '[:', '[x:', '[1', '1:', '٣', '[٣:', 'é']
+    return ''.join(rng.choice(toks) for _ in range(rng.randrange(0, 8)))
+
+
+def buffer_lines(rng, n):
+    """MessageBuffer.append/format/translate and parse_msg on random inputs"""
+    from genshi.filters import i18n
+
+    class D(object):
+        tagname = 'msg'
+
+        def __init__(self, params):
+            self.params = params
+    out = []
+    for _ in range(n):
+        params = rng.choice([[], ['p1'], ['p1', 'p2'], ['p1', 'p2', 'q']])
+        evs = rand_events(rng)
+        w = Wire()
+        wired = w.stream(evs)
+        fmt = None
+        try:
+            mb = i18n.MessageBuffer(D(list(params)))
+            for e in evs:
+                mb.append(*e)
+            fmt = mb.format()
+            real = [Atom('ok'), fmt]
+        except Exception as e:  # noqa
+            real = [Atom('err'), Atom(errname(e))]
+        out.append(('format', proto.line(Atom('C19'), Atom('format'), params, wired), real))
+        tr = rand_translation(rng, fmt)
+        try:
+            real = [Atom('ok'), [[Atom(str(o)), t] for o, t in i18n.parse_msg(tr)]]
+        except Exception as e:  # noqa
+            real = [Atom('err'), Atom(errname(e))]
+        out.append(('parse_msg', proto.line(Atom('C19'), Atom('parse'), tr), real))
+        try:
+            mb = i18n.MessageBuffer(D(list(params)))
+            for e in evs:
+                mb.append(*e)
+            real = [Atom('ok'), w.stream(list(mb.translate(tr)))]
+        except Exception as e:  # noqa
+            real = [Atom('err'), Atom(errname(e))]
+        out.append(('mbtranslate', proto.line(Atom('C19'), Atom('mbtranslate'), params, wired, tr), real))
+    return out
+
+
+def compare(triples, res):
+    lines = [t[1] for t in triples]
+    answers = proto.run_lines(lines)
+    for (stream, line, real), ans in zip(triples, answers):
+        if ans == 'unmodelled':
+            res.count('model:unmodelled:' + stream)
+            continue
+        try:
+            model = proto.dec(ans)
+        except Exception:  # noqa
+            model = Atom(ans)
+        res.streams[stream] = res.streams.get(stream, 0) + 1
+        if stream == 'translate' and real[0] != 'err' and isinstance(model, list) and len(model) == 2:
+            res.count('translate:lookups', len(real[1]))
+        if model != real:
+            res.disagreements.append({'stream': stream, 'case': {'line': line}, 'model': repr(model)[:1500],
+                                      'real': repr(real)[:1500]})
+
+
+# --------------------------------------------------------------------------
 
 def gen_cases(rng, n, hazards=()):
     cases = []
@@ -397,12 +751,19 @@ def shard(arg):
     rng = random.Random('%s/%s/C19' % (seed, idx))
     res = Result()
     cases = gen_cases(rng, n)
+    triples = []
     for c in cases:
         res.evaluations += 1
         res.count('cat:' + c['cat'])
         f = oracle_case(c)
         if f:
             res.failures.append(f)
+        try:
+            triples.extend(corr_lines(c, rng))
+        except Exception as e:  # noqa
+            res.disagreements.append({'stream': 'harness', 'case': c, 'model': '', 'real': 'corr_lines raised %s: %s' % (type(e).__name__, e)})
+    triples.extend(buffer_lines(rng, 3 * n))
+    compare(triples, res)
     res.samples = cases[:2]
     return res
 
